@@ -42,6 +42,15 @@ def gen(out):
     out.append(f"Definition time_div : Z -> Z -> Z := {ops.pop()}.")
     if "i64::try_from(secs).ok()" not in src:
         raise Missing(f"{rel}: i64::try_from(secs).ok()")
-    # float seconds are floored
-    if "f.floor() as i64" not in src:
-        raise Missing(f"{rel}: f.floor() as i64")
+    # float seconds are floored; is the value range-checked before the (saturating) cast?
+    m = re.search(r"else if let Some\(f\) = n\.as_f64\(\) \{(.*?)let secs = f\.floor\(\) as i64;", src, re.S)
+    if not m:
+        raise Missing(f"{rel}: f.floor() as i64 in the float branch of normalize_json_value")
+    guard = re.sub(r"//[^\n]*", "", m.group(1)).strip()
+    if guard == "":
+        checked = False
+    elif re.fullmatch(r"if !\(f >= -9_223_372_036_854_775_808\.0 && f < 9_223_372_036_854_775_808\.0\) \{\s*return Err\(.*?\);\s*\}", guard, re.S):
+        checked = True
+    else:
+        raise Missing(f"{rel}: unrecognised code before `let secs = f.floor() as i64;`: {guard!r}")
+    out.append(f"Definition time_float_checks_i64_range : bool := {'true' if checked else 'false'}.")
